@@ -27,7 +27,7 @@ type mop struct {
 
 func mutOps(keys []string) []mop {
 	var ops []mop
-	vals := [][]byte{[]byte(""), []byte("x"), []byte("y")}
+	vals := [][]byte{[]byte(""), []byte("x"), []byte("y"), nil} // nil: a nil slice is an empty value, not a delete
 	for _, k := range keys {
 		k := k
 		for _, v := range vals {
@@ -44,7 +44,7 @@ func mutOps(keys []string) []mop {
 		v   []byte
 	}
 	k0, k1 := keys[0], keys[1]
-	prim := []bo{{false, k0, []byte("p")}, {false, k0, []byte("")}, {true, k0, nil}, {false, k1, []byte("q")}, {true, k1, nil}}
+	prim := []bo{{false, k0, []byte("p")}, {false, k0, []byte("")}, {true, k0, nil}, {false, k1, []byte("q")}, {true, k1, nil}, {false, k1, nil}}
 	var rec func(cur []bo)
 	rec = func(cur []bo) {
 		if len(cur) >= 2 {
